@@ -34,6 +34,11 @@ inline void *vmalloc(size_t n) {
     if (p) { heapLog().owned.insert(p); heapLog().allocs++; }
     return p;
 }
+inline void *vcalloc(size_t k, size_t n) {
+    void *p = std::calloc(k, n);
+    if (p) { heapLog().owned.insert(p); heapLog().allocs++; }
+    return p;
+}
 inline void vfree(void *p) {
     if (p) {
         if (!heapLog().owned.erase(p)) heapLog().foreign = true;
@@ -53,10 +58,13 @@ inline void *vrealloc(void *p, size_t n) {
 } // namespace verif
 
 #define malloc(n) verif::vmalloc(n)
+#define calloc(k, n) verif::vcalloc(k, n)
 #define realloc(p, n) verif::vrealloc(p, n)
 #define free(p) verif::vfree(p)
+#include <cmath>
 #include <tulz/container/Array.h>
 #undef malloc
+#undef calloc
 #undef realloc
 #undef free
 
@@ -65,6 +73,12 @@ using verif::reg;
 #if defined(ELEM_LONG)
 using Elem = long;
 static long valueOf(const Elem &e) { return e; }
+static constexpr bool kClass = false;
+#elif defined(ELEM_DOUBLE)
+// arithmetic type with more than one representation of "zero": protocol value 0 stands for NEGATIVE zero, and a
+// positive zero read back is reported as the distinct value 777000777 (an element must hold exactly the stored value)
+using Elem = double;
+static long valueOf(const Elem &e) { if (e == 0.0) return std::signbit(e) ? 0 : 777000777; return (long) e; }
 static constexpr bool kClass = false;
 #elif defined(ELEM_UCHAR)
 using Elem = unsigned char;
@@ -76,6 +90,14 @@ static long valueOf(const Elem &e) { return e.value(); }
 static constexpr bool kClass = true;
 #endif
 static_assert(std::is_class_v<Elem> == kClass);
+
+template<typename V> static Elem mkElem(V v) {
+#if defined(ELEM_DOUBLE)
+    return v == 0 ? -0.0 : (double) v;
+#else
+    return Elem(v);
+#endif
+}
 
 using Arr = tulz::Array<Elem>;
 
@@ -103,11 +125,11 @@ static Arr *makeInit(const std::vector<long> &v) {
     // initializer_list needs a literal shape; the temporaries die at the end of the full expression
     switch (v.size()) {
         case 0: return new Arr(std::initializer_list<Elem>{});
-        case 1: return new Arr{Elem(v[0])};
-        case 2: return new Arr{Elem(v[0]), Elem(v[1])};
-        case 3: return new Arr{Elem(v[0]), Elem(v[1]), Elem(v[2])};
-        case 4: return new Arr{Elem(v[0]), Elem(v[1]), Elem(v[2]), Elem(v[3])};
-        default: return new Arr{Elem(v[0]), Elem(v[1]), Elem(v[2]), Elem(v[3]), Elem(v[4])};
+        case 1: return new Arr{mkElem(v[0])};
+        case 2: return new Arr{mkElem(v[0]), mkElem(v[1])};
+        case 3: return new Arr{mkElem(v[0]), mkElem(v[1]), mkElem(v[2])};
+        case 4: return new Arr{mkElem(v[0]), mkElem(v[1]), mkElem(v[2]), mkElem(v[3])};
+        default: return new Arr{mkElem(v[0]), mkElem(v[1]), mkElem(v[2]), mkElem(v[3]), mkElem(v[4])};
     }
 }
 
@@ -142,7 +164,7 @@ static std::string run(const std::vector<std::string> &t) {
         {
             std::vector<Elem> src;
             src.reserve(t.size());
-            for (size_t i = 3; i < t.size(); ++i) src.emplace_back(Elem(num(i)));
+            for (size_t i = 3; i < t.size(); ++i) src.emplace_back(mkElem(num(i)));
             // an empty source is passed as a null pointer (what `Array<T>(nullptr, 0)` does)
             slot(1) = new Arr(src.empty() ? nullptr : src.data(), (size_t) num(2));     // copy = true
         }
@@ -158,7 +180,7 @@ static std::string run(const std::vector<std::string> &t) {
     if (op == "size") { needFree(1); slot(1) = new Arr((size_t) num(2)); return finish("ok"); }
     if (op == "fill") {
         needFree(1);
-        { Elem v(num(3)); slot(1) = new Arr((size_t) num(2), v); }
+        { Elem v(mkElem(num(3))); slot(1) = new Arr((size_t) num(2), v); }
         return finish("ok");
     }
     if (op == "dflt") { needFree(1); slot(1) = new Arr(); return finish("ok"); }
@@ -174,9 +196,9 @@ static std::string run(const std::vector<std::string> &t) {
 
     Arr &a = obj(1);
     if (op == "resize") { a.resize((size_t) num(2)); return finish("ok"); }
-    if (op == "resizev") { { Elem v(num(3)); a.resize((size_t) num(2), v); } return finish("ok"); }
+    if (op == "resizev") { { Elem v(mkElem(num(3))); a.resize((size_t) num(2), v); } return finish("ok"); }
     if (op == "resizeself") { a.resize((size_t) num(2), a[(size_t) num(3)]); return finish("ok"); }
-    if (op == "set") { a[(size_t) num(2)] = Elem(num(3)); return finish("ok"); }
+    if (op == "set") { a[(size_t) num(2)] = mkElem(num(3)); return finish("ok"); }
     if (op == "get") {
         const Arr &ca = a;   // both overloads, and the iterator arithmetic
         long x = valueOf(a[(size_t) num(2)]), y = valueOf(ca[(size_t) num(2)]);
